@@ -96,7 +96,7 @@ def run(ctx):
     from engine.common import check_harness_errors
 
     seams.template_db()
-    progs_ = ctx.pick(["chain", "catch", "file"], list(c02.PROGRAMS))
+    progs_ = ctx.pick(["chain", "catch", "file", "script"], list(c02.PROGRAMS))
     depth = ctx.pick(2, 3)
     work = [(p, None, depth) for p in progs_] + [(p, a, depth) for p in progs_ for a in c02.actions(p)]
     res = ctx.pmap(explore, ctx.rotate(work), chunksize=1)
